@@ -77,7 +77,6 @@ any of the arguments corresponding to %s is a null pointer
  */
 
 EXPORT int fwprintf_s(FILE *restrict stream, const wchar_t *restrict fmt, ...) {
-    wchar_t *p;
     va_list ap;
     int ret;
 
@@ -87,27 +86,11 @@ EXPORT int fwprintf_s(FILE *restrict stream, const wchar_t *restrict fmt, ...) {
         return -(ESNULLP);
     }
 
-#if defined(HAVE_WCSSTR) || !defined(SAFECLIB_DISABLE_EXTENSIONS)
-    if (unlikely((p = wcsstr((wchar_t *)fmt, L"%n")))) {
-        if ((p - fmt == 0) || *(p - 1) != L'%') {
-            invoke_safe_str_constraint_handler("fwprintf_s: illegal %n", NULL,
-                                               EINVAL);
-            return -(EINVAL);
-        }
+    if (unlikely(safec_wfmt_has_n(fmt))) {
+        invoke_safe_str_constraint_handler("fwprintf_s: illegal %n", NULL,
+                                           EINVAL);
+        return -(EINVAL);
     }
-#elif defined(HAVE_WCSCHR)
-    if (unlikely((p = wcschr(fmt, flen, L'n')))) {
-        /* at the beginning or if inside, not %%n */
-        if (((p - fmt >= 1) && *(p - 1) == L'%') &&
-            ((p - fmt == 1) || *(p - 2) != L'%')) {
-            invoke_safe_str_constraint_handler("fwprintf_s: illegal %n", NULL,
-                                               EINVAL);
-            return -(EINVAL);
-        }
-    }
-#else
-#error need wcsstr or wcschr
-#endif
 
     errno = 0;
     va_start(ap, fmt);
